@@ -78,6 +78,15 @@ fn main() {
         }
         return;
     }
+    if args[1] == "--idle" {
+        // used by C03: an unrelated exec'ed child that stays alive until its stdin is closed
+        use std::io::{Read, Write};
+        println!("ready");
+        let _ = std::io::stdout().flush();
+        let mut b = Vec::new();
+        let _ = std::io::stdin().read_to_end(&mut b);
+        return;
+    }
     if args[1] == "--oneshot-client" {
         // used by C08: a client that is a separately exec'ed process
         let n: usize = args.get(3).and_then(|s| s.parse().ok()).unwrap_or(1);
